@@ -413,6 +413,21 @@ def _guid_case(repo, it, S, spec):
             out.append(("insertion order", f"{kind}: the guid depends on qualifier insertion order: keys {list(q)} values "
                         f"{[q[k] for k in q]} give {o.fields['guid']}, the original order gives {g0}", qn))
             break
+    # another hash seed: the same object built with every set iterated in the opposite order has the same guid and dictionary
+    from ..interp import other_hash_seed
+    n += 1
+    try:
+        with other_hash_seed():
+            o2, _ = mk(dict(quals))
+            k2, d2 = run(it, it.method(o2, "to_dict"), [], {}, o2)
+        k1, d1 = run(it, it.method(base, "to_dict"), [], {}, base)
+        if str(o2.fields["guid"]) != g0:
+            out.append(("hash seed", f"{kind}: built with every set iterated in the opposite order the guid is {o2.fields['guid']}; it is {g0} otherwise", qn))
+        elif k1 != k2 or plain(d1) != plain(d2):
+            out.append(("hash seed", f"{kind}: to_dict() differs when every set is iterated in the opposite order: "
+                        f"{_diff(plain(d1), plain(d2)) if k1 == k2 == 'ok' else (k1, k2)}", qn))
+    except Raised as ex:
+        out.append(("hash seed", f"{kind}: construction with every set iterated in the opposite order raises {ex.exc_name}", qn))
     # content sensitivity
     changes = {"feature": [dict(blocks=[(3, 9), (12, 21)]), dict(blocks=[(4, 9), (12, 20)]), dict(strand="MINUS")],
                "transcript": [dict(exons=[(3, 9), (12, 21)]), dict(strand="MINUS"), dict(frames=[F["ZERO"], F["ONE"]])],
